@@ -248,12 +248,25 @@ func clientWorkload(kind kit.Kind, iters int) {
 				time.Sleep(100 * time.Microsecond)
 			}
 		}()
+		// every fourth round: Close overlaps the handshake itself (connection / stream / child process being
+		// set up while the transport is torn down)
+		var early sync.WaitGroup
+		if round%4 == 2 {
+			early.Add(1)
+			go func(d time.Duration) {
+				defer early.Done()
+				time.Sleep(d)
+				guard(func() { c.Close() })
+			}(time.Duration(round*137%1500) * time.Microsecond)
+		}
 		if _, err := c.Initialize(ctx, &mcp.InitializeRequest{}); err != nil {
+			early.Wait()
 			close(stop)
 			bg.Wait()
 			c.Close()
 			continue
 		}
+		early.Wait()
 		c.RegisterNotificationHandler("notifications/verif", func(n *mcp.JSONRPCNotification) error { return nil })
 		bg.Add(1)
 		go func() {
